@@ -100,9 +100,9 @@ const (
 	// Signer configuration flags
 
 	// FlagSignerType is a flag for specifying the signer type
-	FlagSignerType = "rollkit.signer.type"
+	FlagSignerType = "rollkit.signer.signer_type"
 	// FlagSignerPath is a flag for specifying the signer path
-	FlagSignerPath = "rollkit.signer.path"
+	FlagSignerPath = "rollkit.signer.signer_path"
 
 	// FlagSignerPassphrase is a flag for specifying the signer passphrase
 	//nolint:gosec
@@ -369,6 +369,11 @@ func LoadFromViper(inputViper *viper.Viper) (Config, error) {
 func loadFromViper(v *viper.Viper, home string) (Config, error) {
 	cfg := DefaultConfig
 	cfg.RootDir = home
+	if cfg.Instrumentation != nil {
+		// decode into a copy: the pointer is shared with DefaultConfig
+		instrumentation := *cfg.Instrumentation
+		cfg.Instrumentation = &instrumentation
+	}
 
 	decoder, err := mapstructure.NewDecoder(&mapstructure.DecoderConfig{
 		DecodeHook: mapstructure.ComposeDecodeHookFunc(
